@@ -327,3 +327,12 @@ mutant("c20-d8-revert-sample", "C20", "C20.dom.risky", DMOD, "    if collection_
 mutant("c20-sample-size-floor", "C20", "C20.dom.risky", DMOD, "    let sample_size = usize::max(\n        16,", "    let sample_size = usize::max(\n        8,")
 mutant("c20-epoch-divisor", "C20", "C20.dom.risky", DCOV, "    let mut num_epochs: usize = usize::max(1, max_dict_size / params.segment_size as usize);", "    let mut num_epochs: usize = max_dict_size / params.segment_size as usize;")
 benign("c20-reorder-min-args", "C20", DMOD, "        segment_size: usize::min(2048, source_size) as u32,", "        segment_size: usize::min(source_size, 2048) as u32,")
+
+# ---- C18 -------------------------------------------------------------------------------
+IONS = "ruzstd/src/io_nostd.rs"
+mutant("c18-nostd-early-return", "C18", "C18.cfgdiff", BLKD, "        let btype = self.block_type()?;\n        if let BlockType::Reserved = btype {", "        let btype = self.block_type()?;\n        #[cfg(not(feature = \"std\"))]\n        if self.header_buffer[2] == 0xFF {\n            return Err(BlockHeaderReadError::FoundReservedBlock);\n        }\n        if let BlockType::Reserved = btype {")
+mutant("c18-nohash-different-window", "C18", "C18.cfgdiff", DB, "        self.window_size = window_size;\n        self.buffer.clear();", "        #[cfg(feature = \"hash\")]\n        {\n            self.window_size = window_size;\n        }\n        #[cfg(not(feature = \"hash\"))]\n        {\n            self.window_size = window_size / 2;\n        }\n        self.buffer.clear();")
+mutant("c18-flag-without-trailer", "C18", "C18.", FCOMP, "            content_checksum: cfg!(feature = \"hash\"),", "            content_checksum: true,")
+mutant("c18-hash-changes-drain", "C18", "C18.cfgdiff", DB, "            #[cfg(feature = \"hash\")]\n            self.hash.write(&slice1[..written1]);\n            drain_guard.amount += written1;", "            #[cfg(feature = \"hash\")]\n            self.hash.write(&slice1[..written1]);\n            #[cfg(feature = \"hash\")]\n            let written1 = written1.min(n1);\n            drain_guard.amount += written1;")
+mutant("c18-compress-nostd-blocksize", "C18", "C18.cfgdiff", FCOMP, "                matcher: MatchGeneratorDriver::new(1024 * 128, 1),", "                #[cfg(feature = \"std\")]\n                matcher: MatchGeneratorDriver::new(1024 * 128, 1),\n                #[cfg(not(feature = \"std\"))]\n                matcher: MatchGeneratorDriver::new(1024 * 64, 1),")
+benign("c18-extra-vprintln", "C18", BLKD, "        let btype = self.block_type()?;\n        if let BlockType::Reserved = btype {", "        let btype = self.block_type()?;\n        vprintln!(\"block type read\");\n        if let BlockType::Reserved = btype {")
